@@ -8,6 +8,11 @@
   charged weights, `kw` may hold duplicate ids), every incoming id / key / hash / weight (also `w ≤ 0`),
   every TinyLFU state, every sample size, every oracle (legal or not: an illegal oracle makes the model
   return `.error`, and the theorems speak about `.ok` results), every fuel.
+
+  `is_space_available_for` computes `max_weight - weight_used` in `i64` and panics where the difference is not
+  representable (`Adm.spaceOverflow`; reachable only with a negative total, known finding D10). Because NO
+  well-formedness of `Adm` is assumed here, that outcome is part of the rule: `Evicts.overflow`, status `.pending`
+  (the worker dies, nothing is answered), `r.overflow = true`.
 -/
 import CachedProofs.Lemmas.Admission
 
@@ -15,17 +20,31 @@ namespace Cached
 
 /-! ## 1, 2  the two exits that never look at the sketch -/
 
-/-- The key fits: it is accepted, charged, and nothing is evicted, popped or consumed from the oracle. -/
+/-- The key fits: it is accepted, charged, and nothing is evicted, popped or consumed from the oracle.
+    STATEMENT CHANGED (hypothesis `hno`, conclusion `r.overflow = false`): the code computes `max - used` in `i64`; where that
+    difference is not representable the worker panics instead (`C06_space_overflow`). -/
 theorem C06_fits (t : TinyLFU) (size : Nat) (a : Adm) (id key hash : Nat) (w : Int) (o : Oracle)
-    (hmax : ¬ (w > a.max)) (hfit : a.max - a.used ≥ w) :
+    (hmax : ¬ (w > a.max)) (hno : a.spaceOverflow = false) (hfit : a.max - a.used ≥ w) :
     ∃ r, maybeAdd t size a id key hash w o = .ok r ∧ r.status = .accepted ∧ r.evicted = [] ∧
       r.popped = [] ∧ r.adm = a.add id key hash w ∧ r.adm.used = a.used + w ∧ r.oracle = o ∧
-      r.incEst = none := by
+      r.incEst = none ∧ r.overflow = false := by
   have h : maybeAdd t size a id key hash w o =
       .ok { status := .accepted, adm := a.add id key hash w, oracle := o } := by
     unfold maybeAdd
-    simp only [hmax, hfit, if_false, if_true]
-  exact ⟨_, h, rfl, rfl, rfl, rfl, rfl, rfl, rfl⟩
+    simp only [hmax, hno, hfit, if_false, if_true, Bool.false_eq_true]
+  exact ⟨_, h, rfl, rfl, rfl, rfl, rfl, rfl, rfl, rfl⟩
+
+/-- `max_weight - weight_used` is not representable in `i64` (and the key is not heavier than the cache): the worker panics in
+    `is_space_available_for` before anything is read from the sketch or changed. -/
+theorem C06_space_overflow (t : TinyLFU) (size : Nat) (a : Adm) (id key hash : Nat) (w : Int) (o : Oracle)
+    (hmax : ¬ (w > a.max)) (hov : a.spaceOverflow = true) :
+    ∃ r, maybeAdd t size a id key hash w o = .ok r ∧ r.overflow = true ∧ r.status = .pending ∧ r.adm = a ∧
+      r.evicted = [] ∧ r.popped = [] ∧ r.oracle = o := by
+  have h : maybeAdd t size a id key hash w o =
+      .ok { status := .pending, adm := a, oracle := o, overflow := true } := by
+    unfold maybeAdd
+    simp only [hmax, hov, if_false, if_true]
+  exact ⟨_, h, rfl, rfl, rfl, rfl, rfl, rfl⟩
 
 /-- Heavier than the whole cache: rejected outright, the admission state is untouched. -/
 theorem C06_too_heavy (t : TinyLFU) (size : Nat) (a : Adm) (id key hash : Nat) (w : Int) (o : Oracle)
@@ -59,8 +78,14 @@ inductive Evicts (w : Int) (incEst : Nat) : Adm → List SKey → Status → Adm
   | evict {a : Adm} {sample : List SKey} {st : Status} {a' : Adm} {vs : List SKey}
       (k : SKey) (sample' : List SKey) :
       a.max - a.used < w → k.coldestOf sample → k.est ≤ incEst → (∀ x ∈ sample', x.id ≠ k.id) →
+      (a.delete k.id).1.spaceOverflow = false →
       Evicts w incEst (a.delete k.id).1 sample' st a' vs →
       Evicts w incEst a sample st a' (k :: vs)
+  /-- no room, the coldest sampled key is no hotter than the incoming one and is evicted — and `max - used` of the re-check
+      that follows the eviction is not representable in `i64`: the worker panics there. Nothing is answered (`.pending`). -/
+  | overflow {a : Adm} {sample : List SKey} (k : SKey) :
+      a.max - a.used < w → k.coldestOf sample → k.est ≤ incEst → (a.delete k.id).1.spaceOverflow = true →
+      Evicts w incEst a sample .pending (a.delete k.id).1 [k]
 
 /-- The `(id, key, weight)` triples reported to the delete hook for the victims `vs`, evicted in order
     starting from `a`: a victim is reported iff it is charged at the moment of its eviction. -/
@@ -79,7 +104,7 @@ theorem C06_loop_follows_rule (t : TinyLFU) (size : Nat) (w : Int) (incEst : Nat
       ∃ vs spared, Evicts w incEst a sample r.status r.adm vs ∧
         r.popped = pp.reverse ++ vs ++ spared ∧
         (spared = [] ∨ ∃ k, spared = [k] ∧ incEst < k.est ∧ r.status = .rejected .noSpace) ∧
-        r.evicted = ev.reverse ++ evictedOf a vs := by
+        r.evicted = ev.reverse ++ evictedOf a vs ∧ (r.overflow = true ↔ r.status = .pending) := by
   intro fuel
   induction fuel with
   | zero =>
@@ -92,7 +117,7 @@ theorem C06_loop_follows_rule (t : TinyLFU) (size : Nat) (w : Int) (incEst : Nat
     · -- enough room
       rename_i hge
       cases h
-      exact ⟨[], [], .enough hge, by simp, Or.inl rfl, by simp [evictedOf]⟩
+      exact ⟨[], [], .enough hge, by simp, Or.inl rfl, by simp [evictedOf], by simp⟩
     · rename_i hlt
       have hlt : a.max - a.used < w := by omega
       split at h
@@ -104,7 +129,7 @@ theorem C06_loop_follows_rule (t : TinyLFU) (size : Nat) (w : Int) (incEst : Nat
           cases h
           have hs : sample = [] := by simpa using hemp
           subst hs
-          exact ⟨[], [], .exhausted hlt, by simp, Or.inl rfl, by simp [evictedOf]⟩
+          exact ⟨[], [], .exhausted hlt, by simp, Or.inl rfl, by simp [evictedOf], by simp⟩
       · rename_i id pops _
         split at h
         · cases h
@@ -121,26 +146,34 @@ theorem C06_loop_follows_rule (t : TinyLFU) (size : Nat) (w : Int) (incEst : Nat
               rename_i hhot
               cases h
               exact ⟨[], [k], .hotter k hlt hcold hhot, by simp, Or.inr ⟨k, rfl, hhot, rfl⟩,
-                by simp [evictedOf]⟩
+                by simp [evictedOf], by simp⟩
             · -- evict it
               rename_i hcolder
               have hcolder : k.est ≤ incEst := by omega
               simp only [] at h
               split at h
-              · cases h
-              · rename_i sample'' o' hfill
-                obtain ⟨vs, spared, hE, hpop, hsp, hev⟩ := ih _ _ _ _ _ _ h
-                have hfresh : ∀ x ∈ sample'', x.id ≠ k.id := by
-                  refine fillSample_id_ne (Adm.delete_get?_same a k.id) ?_ hfill
-                  intro x hx
-                  rw [List.mem_filter] at hx
-                  simpa using hx.2
-                refine ⟨k :: vs, spared, ?_, ?_, hsp, ?_⟩
-                · exact .evict k sample'' hlt hcold hcolder hfresh hE
-                · rw [hpop]; simp
-                · rw [hev]
-                  simp only [evictedOf]
-                  cases (a.delete k.id).2 <;> simp
+              · -- the re-check after the eviction overflows: the worker panics
+                rename_i hov
+                cases h
+                refine ⟨[k], [], .overflow k hlt hcold hcolder hov, by simp, Or.inl rfl, ?_, by simp⟩
+                simp only [evictedOf]
+                cases (a.delete k.id).2 <;> simp
+              · rename_i hov
+                split at h
+                · cases h
+                · rename_i sample'' o' hfill
+                  obtain ⟨vs, spared, hE, hpop, hsp, hev, hovf⟩ := ih _ _ _ _ _ _ h
+                  have hfresh : ∀ x ∈ sample'', x.id ≠ k.id := by
+                    refine fillSample_id_ne (Adm.delete_get?_same a k.id) ?_ hfill
+                    intro x hx
+                    rw [List.mem_filter] at hx
+                    simpa using hx.2
+                  refine ⟨k :: vs, spared, ?_, ?_, hsp, ?_, hovf⟩
+                  · exact .evict k sample'' hlt hcold hcolder hfresh (by simpa using hov) hE
+                  · rw [hpop]; simp
+                  · rw [hev]
+                    simp only [evictedOf]
+                    cases (a.delete k.id).2 <;> simp
 
 /-! ### consequences of the rule (by induction on `Evicts`) -/
 
@@ -156,22 +189,39 @@ theorem C06_victims_colder {w : Int} {incEst : Nat} {a a' : Adm} {sample vs : Li
   | enough _ => intro k hk; cases hk
   | exhausted _ => intro k hk; cases hk
   | hotter _ _ _ _ => intro k hk; cases hk
-  | evict k _ _ _ hle _ _ ih =>
+  | evict k _ _ _ hle _ _ _ ih =>
     intro x hx
     rw [List.mem_cons] at hx
     rcases hx with rfl | hx
     · exact hle
     · exact ih x hx
+  | overflow k _ _ hle _ =>
+    intro x hx
+    simp only [List.mem_singleton] at hx
+    subst hx; exact hle
 
-/-- The put is accepted exactly when the final state has room; the only other outcome is `noSpace`. -/
+/-- The put is accepted exactly when the final state has room; the only other outcome is `noSpace`.
+    STATEMENT CHANGED: this holds for every run that ANSWERS (`st ≠ .pending`); the third outcome, `.pending`, is the
+    worker's panic in the re-check after an eviction, and then (and only then) the final `max - used` is outside `i64`
+    right after a victim was taken. -/
 theorem C06_accepted_iff {w : Int} {incEst : Nat} {a a' : Adm} {sample vs : List SKey} {st : Status}
     (h : Evicts w incEst a sample st a' vs) :
-    (st = .accepted ↔ a'.max - a'.used ≥ w) ∧ (st ≠ .accepted → st = .rejected .noSpace) := by
+    (st ≠ .pending → (st = .accepted ↔ a'.max - a'.used ≥ w) ∧ (st ≠ .accepted → st = .rejected .noSpace)) ∧
+    (st = .pending → a'.spaceOverflow = true ∧ vs ≠ []) := by
   induction h with
-  | enough hge => exact ⟨⟨fun _ => hge, fun _ => rfl⟩, fun hne => absurd rfl hne⟩
-  | exhausted hlt => exact ⟨⟨fun e => (by cases e), fun hge => (by omega)⟩, fun _ => rfl⟩
-  | hotter _ hlt _ _ => exact ⟨⟨fun e => (by cases e), fun hge => (by omega)⟩, fun _ => rfl⟩
-  | evict _ _ _ _ _ _ _ ih => exact ih
+  | enough hge => exact ⟨fun _ => ⟨⟨fun _ => hge, fun _ => rfl⟩, fun hne => absurd rfl hne⟩, fun e => (by cases e)⟩
+  | exhausted hlt => exact ⟨fun _ => ⟨⟨fun e => (by cases e), fun hge => (by omega)⟩, fun _ => rfl⟩, fun e => (by cases e)⟩
+  | hotter _ hlt _ _ => exact ⟨fun _ => ⟨⟨fun e => (by cases e), fun hge => (by omega)⟩, fun _ => rfl⟩, fun e => (by cases e)⟩
+  | evict _ _ _ _ _ _ _ _ ih => exact ⟨ih.1, fun e => ⟨(ih.2 e).1, by simp⟩⟩
+  | overflow _ _ _ _ hov => exact ⟨fun hne => absurd rfl hne, fun _ => ⟨hov, by simp⟩⟩
+
+/-- An eviction run never ends in the panic outcome while every total it passes through keeps `max - used` inside `i64`
+    — in particular (`Adm.spaceOverflow_false`) while the totals stay non-negative. -/
+theorem C06_no_overflow_outcome {w : Int} {incEst : Nat} {a a' : Adm} {sample vs : List SKey} {st : Status}
+    (h : Evicts w incEst a sample st a' vs) (hno : a'.spaceOverflow = false) : st ≠ .pending := by
+  intro e
+  have := ((C06_accepted_iff h).2 e).1
+  rw [hno] at this; cases this
 
 /-- Eviction stops as soon as there is room: from a state with room nothing is evicted at all. -/
 theorem C06_stops_when_enough {w : Int} {incEst : Nat} {a a' : Adm} {sample vs : List SKey} {st : Status}
@@ -181,7 +231,8 @@ theorem C06_stops_when_enough {w : Int} {incEst : Nat} {a a' : Adm} {sample vs :
   | enough _ => exact ⟨rfl, rfl, rfl⟩
   | exhausted hlt => omega
   | hotter _ hlt _ _ => omega
-  | evict _ _ hlt _ _ _ _ => omega
+  | evict _ _ hlt _ _ _ _ _ => omega
+  | overflow _ hlt _ _ _ => omega
 
 /-- The final state is the start state with exactly the victims deleted, in order. -/
 theorem C06_final_state {w : Int} {incEst : Nat} {a a' : Adm} {sample vs : List SKey} {st : Status}
@@ -190,7 +241,8 @@ theorem C06_final_state {w : Int} {incEst : Nat} {a a' : Adm} {sample vs : List 
   | enough _ => rfl
   | exhausted _ => rfl
   | hotter _ _ _ _ => rfl
-  | evict _ _ _ _ _ _ _ ih => simpa [admAfter] using ih
+  | evict _ _ _ _ _ _ _ _ ih => simpa [admAfter] using ih
+  | overflow _ _ _ _ _ => rfl
 
 /-- The same, victim by victim: each victim is taken from a state that lacks room for `w`. -/
 theorem C06_every_victim_needed {w : Int} {incEst : Nat} {a a' : Adm} {sample vs : List SKey}
@@ -201,7 +253,7 @@ theorem C06_every_victim_needed {w : Int} {incEst : Nat} {a a' : Adm} {sample vs
   | enough _ => intro pre k post e; simp at e
   | exhausted _ => intro pre k post e; simp at e
   | hotter _ _ _ _ => intro pre k post e; simp at e
-  | evict k0 _ hlt _ _ _ _ ih =>
+  | evict k0 _ hlt _ _ _ _ _ ih =>
     intro pre k post e
     cases pre with
     | nil => exact hlt
@@ -209,6 +261,14 @@ theorem C06_every_victim_needed {w : Int} {incEst : Nat} {a a' : Adm} {sample vs
       simp only [List.cons_append, List.cons.injEq] at e
       obtain ⟨rfl, e⟩ := e
       exact ih pre' k post e
+  | overflow k0 hlt _ _ _ =>
+    intro pre k post e
+    cases pre with
+    | nil => exact hlt
+    | cons p pre' =>
+      simp only [List.cons_append, List.cons.injEq] at e
+      obtain ⟨_, e⟩ := e
+      simp at e
 
 /-- Eviction never changes the capacity. -/
 theorem C06_max_unchanged {w : Int} {incEst : Nat} {a a' : Adm} {sample vs : List SKey} {st : Status}
@@ -217,21 +277,25 @@ theorem C06_max_unchanged {w : Int} {incEst : Nat} {a a' : Adm} {sample vs : Lis
   | enough _ => rfl
   | exhausted _ => rfl
   | hotter _ _ _ _ => rfl
-  | evict k _ _ _ _ _ _ ih => rw [ih, Adm.delete_max]
+  | evict k _ _ _ _ _ _ _ ih => rw [ih, Adm.delete_max]
+  | overflow k _ _ _ _ => rw [Adm.delete_max]
 
 /-- Each victim is a coldest key of the sample it was popped from (hence a member of it), the first one
     of the initial sample. -/
 theorem C06_first_victim_coldest {w : Int} {incEst : Nat} {a a' : Adm} {sample vs : List SKey}
     {st : Status} {k : SKey} (h : Evicts w incEst a sample st a' (k :: vs)) : k.coldestOf sample := by
   cases h with
-  | evict _ _ _ hc _ _ _ => exact hc
+  | evict _ _ _ hc _ _ _ _ => exact hc
+  | overflow _ _ hc _ _ => exact hc
 
 /-! ## 4  `maybe_add` as a whole -/
 
 /-- When the key does not fit, `maybe_add` estimates it, draws a sample of charged keys and follows the rule;
-    the key is charged iff the rule ends in `accepted`. -/
+    the key is charged iff the rule ends in `accepted`.
+    STATEMENT CHANGED (hypothesis `hno`: the first `max - used` is representable — otherwise `C06_space_overflow`; new last
+    conjunct: the result is flagged as the worker's panic exactly when the rule ends in `.pending`). -/
 theorem C06_maybeAdd_rule (t : TinyLFU) (size : Nat) (a : Adm) (id key hash : Nat) (w : Int) (o : Oracle)
-    (r : AdmResult) (hmax : ¬ (w > a.max)) (hlt : a.max - a.used < w)
+    (r : AdmResult) (hmax : ¬ (w > a.max)) (hno : a.spaceOverflow = false) (hlt : a.max - a.used < w)
     (h : maybeAdd t size a id key hash w o = .ok r) :
     ∃ (incEst : Nat) (sample vs spared : List SKey) (a' : Adm) (o1 o2 : Oracle),
       estimateO t hash o = .ok (incEst, o1) ∧
@@ -242,10 +306,10 @@ theorem C06_maybeAdd_rule (t : TinyLFU) (size : Nat) (a : Adm) (id key hash : Na
       r.adm = (if r.status = .accepted then a'.add id key hash w else a') ∧
       r.popped = vs ++ spared ∧
       (spared = [] ∨ ∃ k, spared = [k] ∧ incEst < k.est ∧ r.status = .rejected .noSpace) ∧
-      r.evicted = evictedOf a vs := by
+      r.evicted = evictedOf a vs ∧ (r.overflow = true ↔ r.status = .pending) := by
   unfold maybeAdd at h
   have hnfit : ¬ (a.max - a.used ≥ w) := by omega
-  simp only [hmax, hnfit, if_false] at h
+  simp only [hmax, hno, hnfit, if_false, Bool.false_eq_true] at h
   split at h
   · cases h
   · rename_i incEst o1 hest
@@ -255,11 +319,11 @@ theorem C06_maybeAdd_rule (t : TinyLFU) (size : Nat) (a : Adm) (id key hash : Na
       split at h
       · cases h
       · rename_i lr hloop
-        obtain ⟨vs, spared, hE, hpop, hsp, hev⟩ :=
+        obtain ⟨vs, spared, hE, hpop, hsp, hev, hovf⟩ :=
           C06_loop_follows_rule t size w incEst _ _ _ _ _ _ _ hloop
         cases h
         refine ⟨incEst, sample, vs, spared, lr.adm, o1, o2, hest, hfill,
-          fillSample_sampleOK (SampleOK.nil _) hfill, hE, rfl, rfl, ?_, hsp, ?_⟩
+          fillSample_sampleOK (SampleOK.nil _) hfill, hE, rfl, rfl, ?_, hsp, ?_, hovf⟩
         · simpa using hpop
         · simpa using hev
 
@@ -274,12 +338,17 @@ theorem C06_maybeAdd_colder_never_evicts_hotter (t : TinyLFU) (size : Nat) (a : 
   · obtain ⟨r', hr', _, _, hev, hpp, _⟩ := C06_too_heavy t size a id key hash w o hmax
     rw [h] at hr'; cases hr'
     exact Or.inl ⟨hpp, hev⟩
-  · by_cases hfit : a.max - a.used ≥ w
-    · obtain ⟨r', hr', _, hev, hpp, _⟩ := C06_fits t size a id key hash w o hmax hfit
+  · by_cases hno : a.spaceOverflow = true
+    · obtain ⟨r', hr', _, _, _, hev, hpp, _⟩ := C06_space_overflow t size a id key hash w o hmax hno
       rw [h] at hr'; cases hr'
       exact Or.inl ⟨hpp, hev⟩
-    · obtain ⟨incEst, sample, vs, spared, a', o1, o2, _, _, _, hE, hinc, _, hpp, hsp, hev⟩ :=
-        C06_maybeAdd_rule t size a id key hash w o r hmax (by omega) h
+    have hno : a.spaceOverflow = false := by simpa using hno
+    by_cases hfit : a.max - a.used ≥ w
+    · obtain ⟨r', hr', _, hev, hpp, _⟩ := C06_fits t size a id key hash w o hmax hno hfit
+      rw [h] at hr'; cases hr'
+      exact Or.inl ⟨hpp, hev⟩
+    · obtain ⟨incEst, sample, vs, spared, a', o1, o2, _, _, _, hE, hinc, _, hpp, hsp, hev, _⟩ :=
+        C06_maybeAdd_rule t size a id key hash w o r hmax hno (by omega) h
       refine Or.inr ⟨incEst, vs, spared, hinc, hpp, hev, C06_victims_colder hE, ?_⟩
       intro k hk
       rcases hsp with rfl | ⟨k', rfl, hk', _⟩
@@ -319,15 +388,17 @@ theorem C06_fuel_suffices (t : TinyLFU) (size : Nat) (w : Int) (incEst : Nat) :
             · intro e; cases e
             · simp only []
               split
-              · rename_i e' heq
-                intro e; injection e with e
-                subst e
-                exact fillSample_ne_fuel _ _ _ _ _ heq
-              · rename_i sample'' o' hfill
-                refine ih _ _ _ _ _ ?_ ?_
-                · exact fillSample_sampleOK (SampleOK.delete_filter hok k.id) hfill
-                · have := Adm.delete_length_lt a k.id (hok k hmem)
-                  omega
+              · intro e; cases e
+              · split
+                · rename_i e' heq
+                  intro e; injection e with e
+                  subst e
+                  exact fillSample_ne_fuel _ _ _ _ _ heq
+                · rename_i sample'' o' hfill
+                  refine ih _ _ _ _ _ ?_ ?_
+                  · exact fillSample_sampleOK (SampleOK.delete_filter hok k.id) hfill
+                  · have := Adm.delete_length_lt a k.id (hok k hmem)
+                    omega
 
 /-- `maybe_add` never runs out of fuel: the model's bound on the loop is not a restriction. -/
 theorem C06_maybeAdd_fuel (t : TinyLFU) (size : Nat) (a : Adm) (id key hash : Nat) (w : Int) (o : Oracle) :
@@ -336,6 +407,8 @@ theorem C06_maybeAdd_fuel (t : TinyLFU) (size : Nat) (a : Adm) (id key hash : Na
   split
   · intro e; cases e
   · split
+    · intro e; cases e
+    split
     · intro e; cases e
     · split
       · rename_i e' heq
@@ -422,8 +495,39 @@ example :
     let k3 : SKey := { id := 3, weight := 3, est := 1 }
     Evicts 6 1 exAdm [k3, k2, k1] .accepted (admAfter exAdm [k2, k1]) [k2, k1] := by
   intro k2 k1 k3
-  refine .evict k2 [k3, k1] (by decide) ⟨by decide, by decide⟩ (by decide) (by decide) ?_
-  refine .evict k1 [k3] (by decide) ⟨by decide, by decide⟩ (by decide) (by decide) ?_
+  refine .evict k2 [k3, k1] (by decide) ⟨by decide, by decide⟩ (by decide) (by decide) (by decide) ?_
+  refine .evict k1 [k3] (by decide) ⟨by decide, by decide⟩ (by decide) (by decide) (by decide) ?_
   exact .enough (by decide)
+
+/-- what the overflow examples look at in a result -/
+structure ExOvView where
+  overflow : Bool
+  status : Status
+  used : Int
+  evicted : List Evicted
+  popped : List SKey
+  deriving DecidableEq
+
+def exOvView (r : Except String AdmResult) : Option ExOvView :=
+  r.toOption.map (fun r => ⟨r.overflow, r.status, r.adm.used, r.evicted, r.popped⟩)
+
+/-- **The panic outcome is inhabited**: capacity `i64::MAX`, the total at −3 (what known finding D10 leaves behind): the
+    first `max_weight - weight_used` is `i64::MAX + 3`, the worker panics, nothing is consumed or changed. -/
+example :
+    Adm.spaceOverflow { max := i64Max, used := -3, kw := [] } = true ∧
+    exOvView (maybeAdd exLFU 3 { max := i64Max, used := -3, kw := [] } 4 104 14 1 {}) =
+      some ⟨true, .pending, -3, [], []⟩ := by decide
+
+/-- … and in the re-check after an eviction: capacity `i64::MAX`, total 5 while key id 1 is charged 9 (the accounting
+    identity is broken, as after D10): the incoming key of weight `i64::MAX - 2` does not fit, the victim goes, the total
+    is −4 and `max_weight - weight_used` overflows. `Evicts.overflow` describes it. -/
+example :
+    let a : Adm := { max := i64Max, used := 5, kw := [(1, { key := 101, hash := 11, weight := 9 })] }
+    exOvView (maybeAdd exLFU 3 a 4 104 14 (i64Max - 2) { dk := [false, false], ids := [1], pops := [some 1] }) =
+      some ⟨true, .pending, -4, [(1, 101, 9)], [{ id := 1, weight := 9, est := 0 }]⟩ ∧
+    Evicts (i64Max - 2) 0 a [{ id := 1, weight := 9, est := 0 }] .pending (a.delete 1).1 [{ id := 1, weight := 9, est := 0 }] := by
+  intro a
+  refine ⟨by decide, ?_⟩
+  exact .overflow { id := 1, weight := 9, est := 0 } (by decide) ⟨by decide, by decide⟩ (by decide) (by decide)
 
 end Cached
